@@ -45,6 +45,7 @@ Sets == { [client |-> "cl1", height |-> 5, set |-> [a |-> 1, b |-> 1, c |-> 1]],
           [client |-> "cl1", height |-> 8, set |-> [a |-> 2, b |-> 1, c |-> 1]],
           [client |-> "cl1", height |-> 6, set |-> [a |-> 1, b |-> 1, c |-> 1, d |-> 1, e |-> 1]],
           [client |-> "cl1", height |-> 7, set |-> [a |-> 1, b |-> 1, z |-> 1]],      \* same size, one member replaced
+          [client |-> "cl1", height |-> 9, set |-> [a |-> 1, b |-> 1]],               \* a strict subset with unchanged powers (a validator left the L1 set)
           [client |-> "cl1", height |-> 3, set |-> [z |-> 5]],
           [client |-> "other", height |-> 9, set |-> [z |-> 5]],
           [client |-> "", height |-> 9, set |-> [z |-> 5]] }
